@@ -445,7 +445,7 @@ static inline void buildChecked(const World& w, forest* f, const FSpec& fs, cons
 // Table generators
 // ------------------------------------------------------------------------------------
 // value alphabet for a forest kind
-static inline std::vector<Val> alphabet(Rng& r, const FSpec& f, bool allowNeg = true, bool exactReals = false) {
+static inline std::vector<Val> alphabet(Rng& r, const FSpec& f, bool allowNeg = true, bool exactReals = false, bool tinyReals = false) {
     std::vector<Val> a;
     if (f.isBool()) { a.push_back(Val::b(true)); return a; }
     if (f.isInt()) {
@@ -469,7 +469,7 @@ static inline std::vector<Val> alphabet(Rng& r, const FSpec& f, bool allowNeg = 
     for (int i = 0; i < k; i++) {
         double v;
         if (exactReals) v = 0.5 * r.range(allowNeg ? -12 : 1, 12);
-        else switch (r.below(r.chance(1, 6) ? 5 : 4)) {
+        else switch (r.below((tinyReals && r.chance(1, 6)) ? 5 : 4)) {
             case 4: v = 1e-6 * r.range(allowNeg ? -9 : 1, 9); break;   // below the terminal precision (1e-5)
             case 0: v = 0.5 * r.range(allowNeg ? -12 : 1, 12); break;
             case 1: v = r.unit() * 10.0; break;
